@@ -5,6 +5,22 @@ from __future__ import annotations
 from docutils import nodes
 
 
+def _dangling_key(reg):
+    """Mechanism key for 'registered in document.ids but not part of the tree': WHO threw the node away."""
+    from docutils import nodes
+
+    x = reg
+    while x.parent is not None and any(c is x for c in x.parent.children):
+        x = x.parent
+    # x is the top of the detached piece: a true root, or a node that its (stale) parent no longer lists
+    if x.parent is None and type(x) is nodes.Element:
+        # a directive nested-parsed its content into a scratch container and then rejected it (docutils' own tables do this)
+        return "dangling:registered-node-not-in-tree:nested-parse-result-discarded"
+    if x.parent is not None and isinstance(x, (nodes.topic, nodes.pending)) and ("contents" in x.get("classes", []) or isinstance(x, nodes.pending)):
+        return "dangling:registered-node-not-in-tree:contents-removed-by-docutils-transform"
+    return f"dangling:registered-node-not-in-tree:{reg.tagname}:detached-{x.tagname}" + ("" if x.parent is None else ":removed-from-" + x.parent.tagname)
+
+
 def check_tree(doc, stage):
     """Invariants of C03 on one document.  stage: 'parsed' (directly after Parser.parse) | 'transformed'.
 
@@ -79,14 +95,14 @@ def check_tree(doc, stage):
                     reg = doc.ids.get(rid)
                     if reg is not None and not _attached(reg, doc):
                         # the id is registered, but its node was produced by a nested parse whose result the directive threw away
-                        out.append(("dangling:registered-node-not-in-tree", f"<{n.tagname}> refid {rid!r}: the id is registered in document.ids but its <{reg.tagname}> node is not part of the tree", n))
+                        out.append((_dangling_key(reg), f"<{n.tagname}> refid {rid!r}: the id is registered in document.ids but its <{reg.tagname}> node is not part of the tree", n))
                     else:
                         out.append((f"refid:dangling:{n.tagname}", f"<{n.tagname}> refid {rid!r} names no id in the tree and no target-not-found message was issued", n))
             for b in n.get("backrefs", []) if isinstance(n, (nodes.footnote, nodes.citation, nodes.system_message)) else []:
                 if b not in present:
                     reg = doc.ids.get(b)
                     if reg is not None and not _attached(reg, doc):
-                        out.append(("dangling:registered-node-not-in-tree", f"<{n.tagname}> backref {b!r}: the id is registered in document.ids but its <{reg.tagname}> node is not part of the tree", n))
+                        out.append((_dangling_key(reg), f"<{n.tagname}> backref {b!r}: the id is registered in document.ids but its <{reg.tagname}> node is not part of the tree", n))
                     else:
                         out.append((f"backref:dangling:{n.tagname}", f"<{n.tagname}> backref {b!r} names no id in the tree", n))
         # (7) footnotes start with their label
